@@ -356,6 +356,11 @@ func (pg *program) generatePackage(pkgInfo *loader.PackageInfo) error {
 	// 	ss[i] = pg.program.Fset.File(pkgInfo.Files[i].Pos()).Name()
 	// }
 	// log.Printf("package: %s, files %d: %s", path, len(pkgInfo.Files), strings.Join(ss, ", "))
+	if len(pkgInfo.Files) == 0 {
+		// For example the package of a directory that only holds an external test package:
+		// there is nothing to generate for and no generated file of its own to remove.
+		return nil
+	}
 	if isExternalTestPackage(pg.program, pkgInfo) {
 		// The external test package shares its directory, and so the name of its generated file,
 		// with the package it tests: what is generated for it would replace, or remove, that package's functions.
